@@ -549,9 +549,41 @@ def skeleton(check: Check, repo: Repo, rules: dict) -> None:
     check.count("syntax_facts")
 
 
+def trivia_discipline(check: Check, repo: Repo, rules: dict) -> None:
+    """TRIVIA: between any two tokens of a normal production the scanner skips trivia (typestate, sa/trivia_discipline.py)."""
+    from ..trivia_discipline import SYNTACTIC, check_scanner
+
+    # premise from the oracle: the productions these functions implement are normal (not @, $) rules
+    for prod in ("grammar_rule", "expression", "term", "node", "terminal", "postfix_operator", "peek_slice", "range", "_push", "_push_literal"):
+        r = rules.get(prod)
+        if r is None:
+            continue
+        mod = r[0]
+        check.count("trivia_premises")
+        if "@" in mod or "$" in mod:
+            raise AnalysisError(f"{META}: production {prod} became atomic; the trivia typestate no longer applies to it")
+    cls = repo.cls(SCANNER, "Scanner")
+    violations, summ, paths, doc_skips = check_scanner(cls, SCANNER)
+    check.count("trivia_typestate_steps", paths)
+    by_fn: dict[str, list] = {}
+    for fname, what, text in violations:
+        by_fn.setdefault(fname, []).append((what, text))
+    for fname in SYNTACTIC:
+        construct = f"{SCANNER}::Scanner.{fname}"
+        bad = by_fn.get(fname, [])
+        sig = "a token can be consumed directly after another without skipping trivia in a normal production"
+        check.oblige("TRIVIA", construct, "on every non-error path trivia is skipped between consecutive tokens" if not bad else sig, not bad, sample=True,
+                     finding=Finding("TRIVIA", construct, sig, f"Scanner.{fname}: {bad[0][0]} at `{bad[0][1]}` follows a consumed token with no skip_trivia() in between: `a  ~  b` style whitespace or a comment there is a syntax error although the meta-grammar allows it" if bad else sig, {"sites": [f"{w}: {t}" for w, t in bad[:6]]}))
+    for fname in ("scan_grammar_doc_inner", "scan_rule_doc_inner"):
+        construct = f"{SCANNER}::Scanner.{fname}"
+        bad2 = fname in doc_skips
+        sig = "trivia is skipped inside a compound-atomic documentation comment"
+        check.oblige("TRIVIA", construct, "no trivia inside the compound-atomic doc comment" if not bad2 else sig, not bad2, finding=Finding("TRIVIA", construct, sig, f"Scanner.{fname} calls skip_trivia(): grammar_doc / line_doc are $ rules", {}))
+
+
 def run(tier: str) -> Check:
     check = Check("C10", tier, EXPLANATION)
-    check.rules = ["TOKEN-LANG", "KEYWORD-SHADOW", "ESCAPE-TABLE", "DISPATCH", "STRUCTURE", "SYNTAX"]
+    check.rules = ["TOKEN-LANG", "KEYWORD-SHADOW", "ESCAPE-TABLE", "DISPATCH", "STRUCTURE", "SYNTAX", "TRIVIA"]
     repo = Repo()
     meta_text = repo.read(META)
     rules = P.read_pest(meta_text, META)
@@ -572,6 +604,8 @@ def run(tier: str) -> Check:
     dispatch(check, repo)
     structure(check, repo, rules)
     skeleton(check, repo, rules)
+    trivia_discipline(check, repo, rules)
+    check.floor("trivia_typestate_steps", 300)
     check.floor("token_language_comparisons", 17)
     check.floor("shadow_checks", 10)
     check.floor("structure_entries", 20)
